@@ -13,6 +13,9 @@ import (
 	"os"
 	"sort"
 	"strings"
+	"sync"
+	"sync/atomic"
+	"time"
 
 	"github.com/lidofinance/dc4bc/client/api/dto"
 	ctypes "github.com/lidofinance/dc4bc/client/types"
@@ -378,12 +381,52 @@ func (r *nodeRun) errorResults(outDir string) {
 	}
 	r.st.ErrorResults++
 	from := len(c.boardMessages())
-	if err := obs.svc.ProcessOperation(opToDTO(&res)); err != nil {
-		r.mon(fmt.Sprintf("C15 posted_exactly_result: the machine's error result (%s) for a pending operation is refused: %v", res.Event, err))
+	// the result file is submitted TWICE AT THE SAME TIME (a double click, a retried script; the HTTP server handles requests
+	// concurrently): the submission that reaches the board first waits there until the other one is at the board too, or 300 ms
+	var inside int32
+	second := make(chan struct{})
+	oldHook := obs.stg.hook
+	obs.stg.hook = func(op string, msgs []storage.Message) error {
+		if op == "send" {
+			if atomic.AddInt32(&inside, 1) == 1 {
+				select {
+				case <-second:
+				case <-time.After(300 * time.Millisecond):
+				}
+			} else {
+				select {
+				case <-second:
+				default:
+					close(second)
+				}
+			}
+		}
+		if oldHook != nil {
+			return oldHook(op, msgs)
+		}
+		return nil
+	}
+	var wg sync.WaitGroup
+	var errs [2]error
+	for k := 0; k < 2; k++ {
+		wg.Add(1)
+		go func(k int) {
+			defer wg.Done()
+			var cp ctypes.Operation
+			bz, _ := json.Marshal(res)
+			json.Unmarshal(bz, &cp)
+			errs[k] = obs.svc.ProcessOperation(opToDTO(&cp))
+		}(k)
+	}
+	wg.Wait()
+	obs.stg.hook = oldHook
+	r.st.ConcurrentDuplicates++
+	if errs[0] != nil && errs[1] != nil {
+		r.mon(fmt.Sprintf("C15 posted_exactly_result: the machine's error result (%s) for a pending operation is refused: %v", res.Event, errs[0]))
 		return
 	}
 	if posted := len(c.boardMessages()) - from; posted != len(res.ResultMsgs) {
-		r.mon(fmt.Sprintf("C15 posted_exactly_result: %d messages posted for an error result with %d", posted, len(res.ResultMsgs)))
+		r.mon(fmt.Sprintf("C15 posted_exactly_result: the same result file (%s, %d message) submitted twice at the same time: %d messages reached the board (the two requests answered: %v | %v)", res.Event, len(res.ResultMsgs), posted, errs[0], errs[1]))
 	}
 	for _, p := range obs.pendingOps() {
 		if p.ID == res.ID {
